@@ -140,6 +140,10 @@ func (b *build) compile(out string, race bool) {
 }
 
 func (b *build) clean() {
+	if os.Getenv("VERIF_KEEP") != "" {
+		fmt.Fprintf(os.Stderr, "wsimctl: keeping %s\n", b.dir)
+		return
+	}
 	os.RemoveAll(b.dir)
 	// run directories left behind by killed workers of this driver
 	pidMu.Lock()
